@@ -292,7 +292,7 @@ theorem select_shares_only (w : World) (vc vc' : ViewCell) (kw : Sel)
     (h : selectOutcome w vc kw = .fresh vc') :
     vc'.kind = vc.kind ∧ (∀ x, x ∈ vc'.sigs → x ∈ vc.sigs) ∧ (∀ x, x ∈ vc'.rows → x ∈ vc.rows) ∧
     (vc.kind = .lazy → vc'.db = vc.db) ∧ (vc.kind.onDisk = true → vc'.store = vc.store) ∧
-    vc'.picks = [] ∧ vc'.vals = [] :=
+    vc'.picks = [] ∧ (∀ x, x ∈ vc'.vals → x ∈ vc.vals) :=
   Sm.Obj.select_shares' w vc vc' kw h
 
 /-- of the shared data, manifest rows and stores are immutable: no operation of any layer (manifest export,
@@ -363,6 +363,29 @@ theorem view_answers_stable (w : World) (hwf : w.WF) (op : Obj.Op) (c : Nat) (vc
     viewLen (Obj.step w op).1 vc = viewLen w vc ∧ (∀ m, viewMember (Obj.step w op).1 vc m = viewMember w vc m) ∧
     (probeOf (Obj.step w op).1 = probeOf w → viewFind (Obj.step w op).1 vc = viewFind w vc) :=
   Sm.Obj.view_answers_stable' src! w hwf op c vc hc hv hs
+
+/-- … and the LOCATIONS a view reports for what it yields (`signatures_with_location()`, hence the `location` of every
+    search / prefetch / gather result; for a MultiIndex the `internal_location` column joined with `parent`) -/
+theorem view_locs_stable (w : World) (hwf : w.WF) (op : Obj.Op) (c : Nat) (vc : ViewCell)
+    (hc : w.views.cells[c]? = some vc)
+    (hv : ∀ v cv, viewReceiver op = some v → w.views.cid v = some cv → cv ≠ c ∧ (vc.kind = .lazy → cv ≠ vc.db))
+    (hs : ∀ s cs, sigReceiver op = some s → w.sigs.cid s = some cs → cs ∉ deps w vc) :
+    viewLocs (Obj.step w op).1 vc = viewLocs w vc :=
+  Sm.Obj.view_locs_stable' src! w hwf op c vc hc hv hs
+
+/-- constructing a collection FROM existing views only reads them: `MultiIndex.load([views…], [labels…])`,
+    `LinearIndex(list(view.signatures()))`, an SBT / an LCA_Database filled from `view.signatures()`, a
+    StandaloneManifestIndex over a manifest exported from a view, `MultiIndex.load_from_path / _directory / _pathlist` over
+    what a view was saved as: no existing view cell changes (in particular not the inputs'), and — `rows_never_written` — no
+    existing manifest row (what the seeded `MultiIndex.load` that relabelled the rows of a MultiIndex input broke) -/
+theorem construct_from_views_frame (w : World) (op : Obj.Op)
+    (hop : (∃ r p ins, op = .vMultiOf r p ins) ∨ (∃ r k v, op = .vFrom r k v) ∨ (∃ r v, op = .vStandOf r v) ∨
+           (∃ r m v, op = .vMPath r m v))
+    (c : Nat) (vc : ViewCell) (hc : w.views.cells[c]? = some vc) (i : Nat) (row : Row) (hr : w.rows[i]? = some row) :
+    (Obj.step w op).1.views.cells[c]? = some vc ∧ (Obj.step w op).1.rows[i]? = some row := by
+  refine ⟨Sm.Obj.view_frame' src! w op c vc hc ?_, Sm.Obj.rows_stable src! w op i row hr⟩
+  intro v hrecv
+  rcases hop with ⟨_, _, _, e⟩ | ⟨_, _, _, e⟩ | ⟨_, _, e⟩ | ⟨_, _, _, e⟩ <;> (subst e; cases hrecv)
 
 /-- every read-only call on the MANIFESTS of two views (`a + b`, `b + a`, `a + a`, `==`, `in`, `select_to_manifest`, `_select`,
     `filter_rows`, `filter_on_columns`, `to_picklist`, `locations`, `len`, iteration, `write_to_csv`) leaves the whole
